@@ -2838,6 +2838,8 @@ class DRoc(Output):
     def _plot_core(self, data):
         if self.thresholds is None or len(self.thresholds) != 1:
             verif.util.error("DRoc plot needs a single threshold (use -r)")
+        if re.compile(".*within.*").match(self.bin_type):
+            verif.util.error("A 'within' bin type cannot be used in this diagram")
         threshold = self.thresholds[0]   # Observation threshold
 
         if self._doClassic:
